@@ -165,9 +165,11 @@ def load_known():
     return json.load(open(p))
 
 
-def native_reproduces(v, nat):
+def native_reproduces(v, nat, any_label=False):
     """does the native result confirm the symbolic violation v?"""
     r = nat.get("result", "")
+    if any_label and (r.startswith("assert-fail") or r.startswith("panic") or r.startswith("crash")):
+        return True
     if v["kind"] == "assert":
         return r == "assert-fail label=" + v["label"] or r.startswith("panic") or r.startswith("crash")
     if v["kind"] == "panic":
@@ -283,12 +285,12 @@ def run_check(prop, P, tier, seed):
             nat = native_replay(work, pkgdir, [rp for rp, _ in items])
         for rp, v in items:
             nr = nat.get(rp, {"result": "not-run"})
-            ok = no_native or native_reproduces(v, nr)
+            ok = no_native or native_reproduces(v, nr, P.get("native_any_label", False))
             if not ok and v.get("map_order_nondet"):
                 # map iteration order cannot be forced natively: re-run a bounded number of times
                 for _ in range(int(os.environ.get("VERIF_MAPORDER_RETRIES", "40"))):
                     nr = native_replay(work, pkgdir, [rp]).get(rp, {"result": "not-run"})
-                    if native_reproduces(v, nr):
+                    if native_reproduces(v, nr, P.get("native_any_label", False)):
                         ok = True
                         break
             if not ok:
